@@ -101,6 +101,21 @@ Definition block_name (l : str) : option str :=
   | n => Some n
   end.
 
+(* re.search of: hash, whitespace, EMPTY, whitespace, end of line *)
+Definition s_EMPTY_rev : str := [89; 84; 80; 77; 69].
+Definition s_EMPTY_sfx : str := [SP; SP; HASH; SP; 69; 77; 80; 84; 89].
+Fixpoint strip_prefix (p s : str) : option str :=
+  match p, s with
+  | [], _ => Some s
+  | x :: p', y :: s' => if x =? y then strip_prefix p' s' else None
+  | _ :: _, [] => None
+  end.
+Definition empty_marker (l : str) : bool :=
+  match strip_prefix s_EMPTY_rev (drop_while is_space (rev l)) with
+  | Some r => starts_with HASH (drop_while is_space r)
+  | None => false
+  end.
+
 (* the statement regex: whitespace, NAME (word chars), whitespace, OP (an equals
    sign then any run of bar / dollar), whitespace, VALUE (the rest) *)
 Definition expr_match (l : str) : option (str * str * str) :=
@@ -199,7 +214,10 @@ Section Parser.
   Variable read_uuid : str -> option val.                (* datatypes.UUID(s) *)
   Variable repl : str -> option val.                     (* replacements.get(name), called if callable *)
   Variable eval_fn : str -> option (list (str * val)) -> option val.   (* subfield_eval(s, block=cur_block) *)
-  (* se.SUBFIELD_SERIALIZERS[(msg, block, var)].serialize(cur_block, value) *)
+  Variable vnone : val.                                  (* Python None, the placeholder of a packed value *)
+  (* se.SUBFIELD_SERIALIZERS.get((msg, block, var)) is not None *)
+  Variable has_ser : str -> str -> str -> bool.
+  (* se.SUBFIELD_SERIALIZERS[(msg, block, var)].serialize(block, value), block given by its variables *)
   Variable pack : str -> str -> str -> list (str * val) -> val -> option val.
 
   Definition block := list (str * val).
@@ -241,7 +259,44 @@ Section Parser.
     | (n', l) :: r => if str_eqb n n' then last l [] else cur_vars n r
     end.
 
-  Record st := { s_msg : msg; s_cur : option str; s_trace : list str }.
+  (* msg.create_block_list(name) *)
+  Fixpoint create_list (n : str) (bs : blocks) : blocks :=
+    match bs with
+    | [] => [(n, [])]
+    | (n', l) :: r => if str_eqb n n' then (n', l) :: r else (n', l) :: create_list n r
+    end.
+
+  (* number of blocks under name n, minus one: index of cur_block in its list *)
+  Fixpoint cur_idx (n : str) (bs : blocks) : nat :=
+    match bs with
+    | [] => O
+    | (n', l) :: r => if str_eqb n n' then pred (length l) else cur_idx n r
+    end.
+
+  Fixpoint get_block (n : str) (i : nat) (bs : blocks) : option block :=
+    match bs with
+    | [] => None
+    | (n', l) :: r => if str_eqb n n' then nth_error l i else get_block n i r
+    end.
+
+  Fixpoint upd_nth {A} (f : A -> A) (i : nat) (l : list A) : list A :=
+    match l, i with
+    | [], _ => []
+    | x :: r, O => f x :: r
+    | x :: r, S j => x :: upd_nth f j r
+    end.
+
+  Fixpoint set_block (n : str) (i : nat) (k : str) (v : val) (bs : blocks) : blocks :=
+    match bs with
+    | [] => []
+    | (n', l) :: r => if str_eqb n n' then (n', upd_nth (dict_set k v) i l) :: r
+                      else (n', l) :: set_block n i k v r
+    end.
+
+  (* pending_packed entry: the block (name, index), the variable, the value to pack *)
+  Definition pitem := (str * nat * str * val)%type.
+
+  Record st := { s_msg : msg; s_cur : option str; s_trace : list str; s_pend : list pitem }.
 
   Definition res := (st + list str)%type.     (* inr trace: an exception was raised *)
 
@@ -255,10 +310,10 @@ Section Parser.
       else read_lit v
     end.
 
-  Definition set_blocks (s : st) (bs : blocks) (tr : list str) : st :=
+  Definition set_blocks (s : st) (bs : blocks) (tr : list str) (pd : list pitem) : st :=
     {| s_msg := {| m_in := m_in (s_msg s); m_name := m_name (s_msg s); m_flags := m_flags (s_msg s);
                    m_blocks := bs |};
-       s_cur := s_cur s; s_trace := tr |}.
+       s_cur := s_cur s; s_trace := tr; s_pend := pd |}.
 
   (* one complete `name op value` statement *)
   Definition handle_var (safe : bool) (s : st) (n op v : str) : res :=
@@ -275,18 +330,41 @@ Section Parser.
                 else read_lit v in
       match ov, s_cur s with
       | Some x, Some b =>
-        let oy := if packed then pack (m_name (s_msg s)) b n (cur_vars b bs) x else Some x in
-        match oy with
-        | Some y => inl (set_blocks s (assign b n y bs) tr)
-        | None => inr tr
-        end
+        if packed then
+          (* serializer looked up now, value packed after the whole text is read;
+             a None placeholder keeps the field order *)
+          if has_ser (m_name (s_msg s)) b n
+          then inl (set_blocks s (assign b n vnone bs) tr (s_pend s ++ [(b, cur_idx b bs, n, x)]))
+          else inr tr
+        else inl (set_blocks s (assign b n x bs) tr (s_pend s))
       | _, _ => inr tr
       end.
 
   Definition new_block (s : st) (n : str) : st :=
     {| s_msg := {| m_in := m_in (s_msg s); m_name := m_name (s_msg s); m_flags := m_flags (s_msg s);
                    m_blocks := add_block n (m_blocks (s_msg s)) |};
-       s_cur := Some n; s_trace := s_trace s |}.
+       s_cur := Some n; s_trace := s_trace s; s_pend := s_pend s |}.
+
+  (* a block line carrying the EMPTY marker: the list exists, no current block *)
+  Definition empty_list (s : st) (n : str) : st :=
+    {| s_msg := {| m_in := m_in (s_msg s); m_name := m_name (s_msg s); m_flags := m_flags (s_msg s);
+                   m_blocks := create_list n (m_blocks (s_msg s)) |};
+       s_cur := None; s_trace := s_trace s; s_pend := s_pend s |}.
+
+  (* _flush_packed: None = a packer raised *)
+  Fixpoint flush_packed (mn : str) (pd : list pitem) (bs : blocks) : option blocks :=
+    match pd with
+    | [] => Some bs
+    | (b, i, k, x) :: r =>
+      match get_block b i bs with
+      | Some vars =>
+        match pack mn b k vars x with
+        | Some y => flush_packed mn r (set_block b i k y bs)
+        | None => None
+        end
+      | None => None
+      end
+    end.
 
   (* the continuation loop once no lines are left: while v ends with a backslash,
      drop it and rstrip *)
@@ -307,7 +385,7 @@ Section Parser.
     if is_comment l then k None s
     else if starts_with LBR l then
       match block_name l with
-      | Some n => k None (new_block s n)
+      | Some n => if empty_marker l then k None (empty_list s n) else k None (new_block s n)
       | None => inr (s_trace s)
       end
     else
@@ -349,9 +427,13 @@ Section Parser.
       | Some (d, n, f) =>
         match go safe rest None
                  {| s_msg := {| m_in := d; m_name := n; m_flags := f; m_blocks := [] |};
-                    s_cur := None; s_trace := [] |} with
+                    s_cur := None; s_trace := []; s_pend := [] |} with
         | inr t => OErr t
-        | inl s => OMsg (s_msg s) (s_trace s)
+        | inl s =>
+          match flush_packed n (s_pend s) (m_blocks (s_msg s)) with
+          | Some bs => OMsg {| m_in := d; m_name := n; m_flags := f; m_blocks := bs |} (s_trace s)
+          | None => OErr (s_trace s)
+          end
         end
       end
     end.
@@ -411,8 +493,12 @@ Section Parser.
   Definition block_lines (mn bn : str) (b : block) : list str :=
     (LBR :: bn ++ RBR :: block_suffix bn) :: vars_lines mn bn b b.
 
+  (* a block list that is present but holds no blocks is shown as one marked line *)
   Definition blist_lines (mn : str) (e : str * list block) : list str :=
-    flat_map (block_lines mn (fst e)) (snd e).
+    match snd e with
+    | [] => [LBR :: fst e ++ RBR :: s_EMPTY_sfx]
+    | bl => flat_map (block_lines mn (fst e)) bl
+    end.
 
   Definition body_lines (m : msg) : list str := flat_map (blist_lines (m_name m)) (m_blocks m).
 
